@@ -366,10 +366,20 @@ def standin_states_and_cliffords(tier, seed):
     q = cirq.LineQubit.range(2)
     states = [np.array(v, dtype=complex) for v in ([1, 0, 0, 0], [0, 0, 0, 1], [1, 0, 0, 1], [1, 1, 1, 1], [1, 1, 1, -1], [0, 1, 1j, 0], [1, 0, 0, 1e-9], [3, 4, 0, 0], [1, 2, 3, 4], [1, 1j, -1, -1j])]
     states += [cirq.testing.random_superposition(4, random_state=rng.randrange(10 ** 6)) for _ in range(6 if tier == "quick" else 100)]
+    # product states with complex relative phases on either factor (the zero-entangling-gate branch), and nearly product ones
+    ones = [np.array(v, dtype=complex) for v in ([1, 0], [0, 1], [1, 1], [1, -1], [1, 1j], [1, -1j], [1, np.exp(0.25j * np.pi)], [3, 4j], [1, 0.3 - 0.8j])]
+    prods = [np.kron(a_, b_) for a_ in ones for b_ in ones]
+    states += prods if tier != "quick" else rng.sample(prods, 25)
+    states += [np.kron(cirq.testing.random_superposition(2, random_state=rng.randrange(10 ** 6)), cirq.testing.random_superposition(2, random_state=rng.randrange(10 ** 6))) for _ in range(5 if tier == "quick" else 40)]
+    states += [np.kron(ones[4], ones[6]) + 1e-5 * np.array([0, 1, 1, 0]), np.kron(ones[8], ones[5]) + 1e-9 * np.array([1, 0, 0, -1])]
+    pairs_ = [(cirq.LineQubit(0), cirq.LineQubit(1)), (cirq.LineQubit(1), cirq.LineQubit(0)), (cirq.NamedQubit("b"), cirq.NamedQubit("a")), (cirq.GridQubit(1, 0), cirq.GridQubit(0, 5))]
     for s in states:
         s = s / np.linalg.norm(s)
+        q = rng.choice(pairs_)  # the first qubit need not sort first
         for name, fn in (("prepare_two_qubit_state_using_cz", lambda: cirq.prepare_two_qubit_state_using_cz(q[0], q[1], s)), ("prepare_two_qubit_state_using_iswap", lambda: cirq.prepare_two_qubit_state_using_iswap(q[0], q[1], s)),
-                         ("prepare_two_qubit_state_using_sqrt_iswap", lambda: cirq.prepare_two_qubit_state_using_sqrt_iswap(q[0], q[1], s))):
+                         ("prepare_two_qubit_state_using_sqrt_iswap", lambda: cirq.prepare_two_qubit_state_using_sqrt_iswap(q[0], q[1], s)),
+                         ("prepare_two_qubit_state_using_sqrt_iswap(use_sqrt_iswap_inv=False)", lambda: cirq.prepare_two_qubit_state_using_sqrt_iswap(q[0], q[1], s, use_sqrt_iswap_inv=False)),
+                         ("prepare_two_qubit_state_using_iswap(use_iswap_inv=True)", lambda: cirq.prepare_two_qubit_state_using_iswap(q[0], q[1], s, use_iswap_inv=True))):
             R.cases += 1
             try:
                 ops = fn()
@@ -378,7 +388,7 @@ def standin_states_and_cliffords(tier, seed):
                 continue
             got = cirq.Circuit(ops).final_state_vector(qubit_order=q, ignore_terminal_measurements=False, dtype=np.complex128) if list(cirq.flatten_to_ops(ops)) else np.array([1, 0, 0, 0], dtype=complex)
             if abs(abs(np.vdot(got, s)) - 1) > 1e-6:
-                R.bad(f"{name}: the circuit does not prepare the requested state", state=s)
+                R.bad(f"{name}: the circuit does not prepare the requested state", state=s, qubits=q)
             if len([o for o in cirq.flatten_to_ops(ops) if len(o.qubits) == 2]) > 1:
                 R.bad(f"{name} uses more than one two-qubit gate", state=s)
     # Clifford tableau synthesis: all 1- and 2-qubit Cliffords (generated), random 3-4 qubit ones
